@@ -31,11 +31,39 @@ def audit_ok(d: dict, cfg: dict) -> str | None:
     return None
 
 
+def set_id_cases(quick: bool):
+    """sets of 2–3 children × every pattern of child ids (absent, empty, named) × permit/deny/non-matching children × 3 algorithms,
+    rule ids unique across the document: policy_id must name the child that holds the reported rule (or be null when that child has
+    no id), whichever children come before or after it."""
+    import itertools
+    import gen
+    kinds = {"P": ("permit", ["read"]), "D": ("deny", ["read"]), "N": ("permit", ["write"])}
+    ids = [None, "", "A", "B"]
+    req = gc.REQUESTS[0]
+    pool = [(k, i) for k in kinds for i in ids]
+    for n in (2, 3):
+        for m, combo in enumerate(itertools.product(pool, repeat=n)):
+            if n == 3 and (m % (6 if quick else 2)):
+                continue
+            kids = []
+            for j, (k, cid) in enumerate(combo):
+                eff, acts = kinds[k]
+                c = {"rules": [{"id": f"c{j}{k}", "effect": eff, "actions": acts, "resource": {"type": "doc"},
+                                "obligations": [{"type": "require_mfa", "on": "permit"}] if (j + m) % 4 == 0 else []}]}
+                if cid is not None:
+                    c["id"] = cid
+                kids.append(c)
+            for algo in gen.ALGOS:
+                yield {"algorithm": algo, "policies": kids}, req, {"strict": False}
+
+
 def run_cases(run: lib.Run, audit: dict, scale: int = 1):
     quick = run.tier == "quick"
     consts = audit["facts"]["consts"]
     cases = []
     for pol, req, cfg in gc.enum_cases(quick):
+        cases.append((pol, req, {**cfg, "metrics": True, "logger": True}))
+    for pol, req, cfg in set_id_cases(quick):
         cases.append((pol, req, {**cfg, "metrics": True, "logger": True}))
     n_enum = len(cases)
     import random
@@ -85,7 +113,8 @@ def run_cases(run: lib.Run, audit: dict, scale: int = 1):
 
 
 def check(run: lib.Run, audit: dict) -> int:
-    run.rule = ("as C01 (template-pool exhaustive + random grammar incl. nested sets with ids, rel, hostile), every case with recording metric+log "
+    run.rule = ("sets of 2–3 children × every child-id pattern (absent/empty/named) × permit/deny/non-matching × 3 algorithms with document-unique "
+                "rule ids; as C01 (template-pool exhaustive + random grammar incl. nested sets with ids, rel, hostile), every case with recording metric+log "
                 "sinks (sync/async), every fourth case evaluated three times on a cached engine (cold, hit, hit after flip) with sinks that "
                 "raise on half of them. non-trivial = a rule id is reported")
     run.exhaustive = True
